@@ -3,6 +3,7 @@
 (* look_for_indels_in_breakage finders.                                                                            *)
 (*  {"kind": "cluster", "calls": [{type,chr,rs,re,qid,qs,qe,len}], "obs": [{type,chr,rs,re,ids,count}]}             *)
 (*  {"kind": "call", "call": {type,chr,rs,re,qid,qs,qe,len}}                                                        *)
+(*  {"kind": "finder", "calls": [call, ...], "fed": {qid, chr, nbreak}}   everything ONE invocation of a finder returned   *)
 (*  {"kind": "flank", "call": {...}, "pairs": [[r,q],...], "refx": [...], "qryx": [...]}   a call written by           *)
 (*      sv/molecule_indels.run on COMA's output files, with the joined record of its query and the two maps           *)
 EXTENDS Indels, Json, IOUtils
@@ -12,9 +13,10 @@ tr == Traces[t]
 Init == \E j \in 1..Len(Traces) : t = j /\ InitWith(IF Traces[j].kind = "cluster" THEN Traces[j].calls ELSE <<>>)
 Verdict ==
     LET failed == IF tr.kind = "call" THEN C20_Call_Failed(tr.call)
+                  ELSE IF tr.kind = "finder" THEN C20_Finder_Failed(tr.calls, tr.fed)
                   ELSE IF tr.kind = "flank" THEN C20_Call_Failed(tr.call) \cup C20_Flank_Failed(tr.call, tr.pairs, tr.refx, tr.qryx)
                   ELSE IF ~SortedAsWriterSorts(calls) THEN {} ELSE C20_Cluster_Failed(calls, tr.obs)
-        drift == IF tr.kind \in {"call", "flank"} \/ clusters = tr.obs THEN {} ELSE {"clusters_differ_from_spec"}
+        drift == IF tr.kind \in {"call", "flank", "finder"} \/ clusters = tr.obs THEN {} ELSE {"clusters_differ_from_spec"}
     IN IF failed \cup drift = {} THEN TRUE ELSE PrintT(ToString(<<"V", t, failed, drift>>))
 Report == pc = "done" /\ Verdict /\ pc' = "reported" /\ UNCHANGED <<calls, k, clusters, t>>
 Terminated == pc = "reported" /\ UNCHANGED <<ivars, t>>
